@@ -215,6 +215,22 @@ def r3(ctx):
         only_err = vals and all(is_agg(t, "Err") for t in vals) and not any(x in r for x in [u for u, _, _ in ok_returns(fa)])
         ctx.check(P, rule, "hash mismatch returns Err", only_err, "the differing-hash edge returns Err(InvalidChecksum) only",
                   "the edge taken when the stored hash differs from the proof's root hash can reach a non-error return", [loc(fa, b)])
+    # ... and by size: the size of a node is not covered by its own hash, and a hash section of one
+    # node is taken from the proof as it is — compared by hash alone, the genuine hash with a forged
+    # size replaces the stored node (defect D20)
+    lens = []
+    for b_, o_, tr_, fl_ in bool_switches(fa, lambda o: o[0] == "bin" and o[1] == "Eq"):
+        sd = [strip(o_[2]), strip(o_[3])]
+        st_ = [x for x in sd if x[0] == "field" and x[2] == "length" and term_has_call(x, MT_REQUIRED_NODE) == rs]
+        gv_ = [x for x in sd if x[0] == "field" and x[2] == "length" and term_has_call(x, MT_REQUIRED_NODE) is None and term_has_call(x, VERIFY_TREE) == vt]
+        if st_ and gv_ and fl_ is not None:
+            vals_ = [t_ for _, _, t_ in ret_values_in_region(fa, fl_)]
+            r_ = region(fa, fl_)
+            if vals_ and all(is_agg(t_, "Err") for t_ in vals_) and not any(x in r_ for x in [u for u, _, _ in ok_returns(fa)]):
+                lens.append(b_)
+    ctx.check(P, rule, "stored node size is compared with the proof root size", bool(lens), "required_node(..).length != root.length => Err(InvalidChecksum)",
+              "verify_proof compares the node it holds with the root recomputed from the proof by hash only: a hash section consisting of that single node, with the genuine hash and a forged length, is accepted and the forged node replaces the stored one — the block becomes unreadable and every byte offset to its right is off",
+              [site_desc(fa, rs)], key="C04|C04.R3|verify_proof|size comparison")
     # the comparison sits on the Right arm of required_node's result; Left arm pushes an instruction
     arms = [x for x in switch_edges_on(fa, lambda o: o[0] == "disc" and strip(o[1])[0] == "call" and strip(o[1])[1] == rs and o[1][0] == "ok")]
     if need(ctx, P, rule, "verify_proof: match on required_node's Either", arms):
